@@ -29,11 +29,16 @@ def free_names(n, bound=frozenset()):
     return out
 
 
-def check_one(t, src, scheme):
+def check_one(t, src, scheme, counter=None):
     q = parse_expr(src)
     base = sc.sem_all(q)
     ok_idx = [i for i, r in enumerate(base) if r[0] == "ok"]
     replay = {"kind": "C02", "src": src}
+    if counter is not None:
+        # the state of the simplifier's process-wide name counter the query was written against
+        import func_adl.ast.function_simplifier as fs
+        fs.argument_var_counter = counter
+        replay["counter"] = counter
     try:
         r = sc.simplify(q)
     except Exception as ex:
@@ -73,12 +78,72 @@ def check_one(t, src, scheme):
             return
 
 
+def rename_to_generated(q, rng):
+    """The same query with every lambda parameter name replaced (injectively, so scoping is
+    unchanged) by a name of the form the simplifier itself invents, arg_<n>, with n at and just
+    above the simplifier's current counter: the naming scheme under which a fresh name that is
+    not checked against the query's own names captures one of its variables."""
+    import func_adl.ast.function_simplifier as fs
+    params = []
+    for x in ast.walk(q):
+        if isinstance(x, ast.Lambda):
+            for a in x.args.args + x.args.kwonlyargs:
+                if a.arg not in params:
+                    params.append(a.arg)
+    if not params:
+        return None
+    c = fs.argument_var_counter
+    offs = rng.sample(range(0, 3 * len(params) + 2), len(params))
+    m = {p: f"arg_{c + o}" for p, o in zip(params, offs)}
+    q2 = copy.deepcopy(q)
+    for x in ast.walk(q2):
+        if isinstance(x, ast.Name) and x.id in m:
+            x.id = m[x.id]
+        elif isinstance(x, ast.arg) and x.arg in m:
+            x.arg = m[x.arg]
+        elif isinstance(x, ast.keyword) and x.arg in m:
+            # a keyword of a called lambda names one of its parameters
+            x.arg = m[x.arg]
+    return unparse(q2), c
+
+
+def dict_spec_crosscheck(t):
+    """dict_lookup (the spec function behind the proof of visit_Subscript_Dict_with_value), run
+    natively, against CPython evaluating the dictionary display and against the real method."""
+    import proj
+    from func_adl.ast.function_simplifier import simplify_chained_calls
+    pool = ["a", "b", "a", 1, True, 0, False, 2, "1", 1.0, None, "b"]
+    sels = ["a", "b", "c", 0, 1, 2, True, "1"]
+    rng = t.rng
+    n = 60 if t.tier == "quick" else 3000
+    for _ in range(n):
+        keys = [rng.choice(pool) for _ in range(rng.randint(0, 5))]
+        s = rng.choice(sels)
+        d = ast.Dict(keys=[ast.Constant(k) for k in keys],
+                     values=[ast.Constant(100 + i) for i in range(len(keys))])
+        label = f"{unparse(d)}[{s!r}]"
+        t.case("C02:dict-display:" + label, len(set(map(repr, keys))) < len(keys), sample=label)
+        t.contract("dict_lookup (spec, native) == CPython's value of the display == the real method")
+        pyd = eval(compile(ast.fix_missing_locations(ast.Expression(copy.deepcopy(d))), "<d>", "eval"))
+        want = pyd[s] if s in pyd else None
+        spec = proj.dict_lookup(d, s)
+        spec = spec.value if spec is not None else None
+        real = simplify_chained_calls().visit_Subscript_Dict_with_value(copy.deepcopy(d), s)
+        real = real.value if real is not None else None
+        if not (want == spec == real):
+            t.violation("simplify_chained_calls.visit_Subscript_Dict_with_value:ensures same(result, dict_lookup(v, s))",
+                        "the looked-up entry is not the one Python's dictionary display keeps",
+                        label, want, f"spec {spec}, code {real}", {"kind": "C02", "src": label})
+
+
 def run(t):
+    dict_spec_crosscheck(t)
     qs = sc.general_queries(t)
     t.rules.append("closed queries over Select/Where/SelectMany/First/Count in function and method "
                    "form (chains <= 3, nested lambdas, called lambdas with positional/keyword/"
                    "default arguments, tuple/list/dict packaging + constant projection) x binder "
-                   "naming schemes distinct/same/reuse; non-trivial = evaluates on some data set, "
+                   "naming schemes distinct/same/reuse, each also with the binders renamed to arg_<n> at the "
+                   "simplifier's current counter; non-trivial = evaluates on some data set, "
                    "has >= 2 lambdas and is changed by the simplifier; distinct by source text")
     t.bounds.append(f"{len(qs)} queries x {len(sc.DATA)} data sets")
     for s, sch in qs:
@@ -86,8 +151,15 @@ def run(t):
             t.notes.append("time budget reached")
             break
         check_one(t, s, sch)
+        # the same query under the fourth naming scheme: names of the simplifier's own making
+        s2 = rename_to_generated(parse_expr(s), t.rng)
+        if s2 is not None:
+            check_one(t, s2[0], "generated-names", counter=s2[1])
 
 
 def replay(payload, t):
-    check_one(t, payload["src"], "replay")
+    if "[" in payload["src"] and payload["src"].startswith("{") and "lambda" not in payload["src"]:
+        dict_spec_crosscheck(t)
+        return not t.violations
+    check_one(t, payload["src"], "replay", counter=payload.get("counter"))
     return not t.violations
